@@ -1898,7 +1898,77 @@ def t19_read_shape():
         "def readerFreshDictPerCall : Bool := true\ndef readerDecodesKeys : Bool := true\ndef readerLoadsWholeDataset : Bool := true\n\nend NirVerif.Generated\n"
     return {"ReadShape.lean": txt}
 
-ITEMS = {"T1": t1_fields, "T2": t2_whitelist, "T3": t3_file_modes, "T4": t4_conv_axis, "T5": t5_flatten, "T6": t6_lif, "T7": t7_cuba, "T8": t8_unique_name, "T9": t9_neuron_shapes, "T10": t10_guards, "T11": t11_dict_overrides, "T12": t12_graph_interface, "T13": t13_write_shape, "T14": t14_worklist, "T15": t15_check_errors, "T16": t16_observer_effects, "T17": t17_declared_types, "T18": t18_write_dispatch, "T19": t19_read_shape}
+
+# ---------------------------------------------------------------------------------------
+# T20  from_dict: the generic classmethod, dict2NIRNode, and which classes override it doing what to which keys (C18)
+# ---------------------------------------------------------------------------------------
+def t20_from_dict_shape():
+    item = "T20"
+    import glob
+    nt = ast.parse(_src("nir/ir/node.py"))
+    fn = _find_func(nt, "from_dict", "NIRNode")
+    if fn is None or len(fn.args.args) != 2 or fn.args.defaults or fn.args.kwarg or fn.args.vararg:
+        raise Refusal(item, "NIRNode.from_dict(cls, node) not found")
+    if [ast.unparse(d) for d in fn.decorator_list] != ["classmethod"]:
+        raise Refusal(item, "NIRNode.from_dict is not a plain classmethod")
+    c, n = [a.arg for a in fn.args.args]
+    body = [ast.unparse(st) for st in fn.body if not (isinstance(st, ast.Expr) and isinstance(st.value, ast.Constant))]
+    if body != [f"assert {n}['type'] == {c}.__name__", f"del {n}['type']", f"return {c}(**{n})"]:
+        raise Refusal(item, "NIRNode.from_dict is not `assert node['type'] == cls.__name__; del node['type']; return cls(**node)`")
+    it = ast.parse(_src("nir/ir/__init__.py"))
+    d2 = _find_func(it, "dict2NIRNode")
+    if d2 is None or len(d2.args.args) != 1 or d2.args.defaults or d2.decorator_list:
+        raise Refusal(item, "dict2NIRNode(data_dict) not found")
+    dp = d2.args.args[0].arg
+    body = [ast.unparse(st) for st in d2.body if not (isinstance(st, ast.Expr) and isinstance(st.value, ast.Constant))]
+    if body != [f"return str2NIRNode({dp}['type']).from_dict({dp})"]:
+        raise Refusal(item, "dict2NIRNode is not `return str2NIRNode(data_dict['type']).from_dict(data_dict)`")
+    rows = []
+    for path in sorted(glob.glob(os.path.join(REPO, "nir", "ir", "*.py"))):
+        rel = os.path.relpath(path, REPO)
+        tree = ast.parse(_src(rel))
+        for cls in [x for x in tree.body if isinstance(x, ast.ClassDef)]:
+            if cls.name == "NIRNode":
+                continue
+            f = None
+            for sub in cls.body:
+                if isinstance(sub, ast.FunctionDef) and sub.name == "from_dict":
+                    f = sub
+            if f is None:
+                continue
+            if [ast.unparse(d) for d in f.decorator_list] != ["classmethod"] or len(f.args.args) != 2 or f.args.defaults:
+                raise Refusal(item, f"{cls.name}.from_dict is not a classmethod (cls, node)")
+            npar = f.args.args[1].arg
+            sets, dels = [], []
+            stmts = [st for st in f.body if not (isinstance(st, ast.Expr) and isinstance(st.value, ast.Constant))]
+            if not stmts or ast.unparse(stmts[-1]) != f"return super().from_dict({npar})":
+                raise Refusal(item, f"{cls.name}.from_dict does not end with `return super().from_dict(node)`")
+            for st in stmts[:-1]:
+                if isinstance(st, (ast.Import, ast.ImportFrom)):
+                    continue
+                if isinstance(st, ast.Assign) and len(st.targets) == 1 and isinstance(st.targets[0], ast.Subscript) \
+                        and isinstance(st.targets[0].value, ast.Name) and st.targets[0].value.id == npar \
+                        and isinstance(st.targets[0].slice, ast.Constant) and isinstance(st.targets[0].slice.value, str):
+                    sets.append(st.targets[0].slice.value)
+                elif isinstance(st, ast.Delete) and len(st.targets) == 1 and isinstance(st.targets[0], ast.Subscript) \
+                        and isinstance(st.targets[0].value, ast.Name) and st.targets[0].value.id == npar \
+                        and isinstance(st.targets[0].slice, ast.Constant) and isinstance(st.targets[0].slice.value, str):
+                    dels.append(st.targets[0].slice.value)
+                else:
+                    raise Refusal(item, f"{cls.name}.from_dict: statement outside `node[<key>] = …` / `del node[<key>]`: {ast.unparse(st)[:80]}")
+            rows.append((cls.name, sets, dels))
+    ls = lambda xs: "[" + ", ".join(lean_str(x) for x in xs) + "]"
+    txt = HEADER + "\nnamespace NirVerif.Generated\n\n" \
+        "/-- the generic `NIRNode.from_dict` is `assert node[\"type\"] == cls.__name__; del node[\"type\"]; return cls(**node)` and\n" \
+        "    `dict2NIRNode` is `str2NIRNode(data_dict[\"type\"]).from_dict(data_dict)` (the translator refuses otherwise) -/\n" \
+        "def genericFromDictStrict : Bool := true\n\n" \
+        "/-- the classes that override `from_dict`: the keys they assign and the keys they delete before handing the dictionary to\n" \
+        "    the generic classmethod (nothing else is done to it) -/\n" \
+        "def fromDictOverrides : List (String × List String × List String) :=\n  [" + \
+        ",\n   ".join(f"({lean_str(c)}, {ls(a)}, {ls(b)})" for c, a, b in rows) + "]\n\nend NirVerif.Generated\n"
+    return {"FromDictShape.lean": txt}
+
+ITEMS = {"T1": t1_fields, "T2": t2_whitelist, "T3": t3_file_modes, "T4": t4_conv_axis, "T5": t5_flatten, "T6": t6_lif, "T7": t7_cuba, "T8": t8_unique_name, "T9": t9_neuron_shapes, "T10": t10_guards, "T11": t11_dict_overrides, "T12": t12_graph_interface, "T13": t13_write_shape, "T14": t14_worklist, "T15": t15_check_errors, "T16": t16_observer_effects, "T17": t17_declared_types, "T18": t18_write_dispatch, "T19": t19_read_shape, "T20": t20_from_dict_shape}
 
 
 def regenerate(out_dir=OUT, items=None):
